@@ -3,7 +3,7 @@ CONSTANTS
   BaseTables = {"minimal", "odd", "even", "mixed", "zeros", "max"}
   Targets = {"cls", "inst", "ts", "impl", "ivn", "src", "snd", "rcv", "pcu", "ver", "priv", "gl", "other2", "foreign", "nested"}
   ActNames = {"Remove","Empty","SetVr","Truncate","PushStr","PushU16","SetStr","Set","SetIfMissing","SetStrIfMissing","Replace","ReplaceStr"}
+  MaxSteps = 3
 SPECIFICATION MSpec
 INVARIANTS TypeOK GroupLengthOK LayoutAgrees RoundTrip
-CONSTANT MaxSteps = 3
 CHECK_DEADLOCK FALSE
